@@ -100,7 +100,8 @@ def obligations(ctx):
             p_.version += 1
         if c.endswith("add_utxo"):
             u = VM.deref(E_, a[1])
-            E_.trace.append(("add_utxo", E_.concretize(u.fields[0].t) if isinstance(u, VStruct) else repr(u)))
+            ad = VM.deref(E_, a[3])
+            E_.trace.append(("add_utxo", E_.concretize(u.fields[0].t) if isinstance(u, VStruct) else repr(u), ad.path if isinstance(ad, VLazy) else repr(ad)))
             return VEnum("Result", "Ok", [UNIT])
         return UNIT
     E.extra_intrinsics[r"TxProposal::(add_new_output|add_utxo)$"] = prop_mut
@@ -109,7 +110,12 @@ def obligations(ctx):
     E.extra_intrinsics[r"HashSet::<.*>::is_empty$"] = lambda E_, c, a: VBool(g["used_utxos_empty"]) if isinstance(VM.deref(E_, a[0]), VLazy) else VBool(len(VM.deref(E_, a[0]).items) == 0)
     E.extra_intrinsics[r"Vec::<.*TxOutputProposal>::is_empty$|<impl \[.*TxOutputProposal\]>::is_empty$"] = lambda E_, c, a: VBool(g["outputs_empty"])
     E.extra_intrinsics[r"TxProposalChanges::new$"] = lambda E_, c, a: (E_.trace.append(("changes", E_.as_u(a[0]))), E_.mk_struct("TxProposalChanges", tx_proposal=a[0]))[1]
-    E.extra_intrinsics[r"Index<usize>>::index$"] = lambda E_, c, a: R(VLazy("address_of_utxo", "Address")) if isinstance(VM.deref(E_, a[0]), VLazy) else NotImplemented
+    def addr_index(E_, c, a):
+        if not isinstance(VM.deref(E_, a[0]), VLazy):
+            return NotImplemented
+        k = E_.concretize(VM.deref(E_, a[1]).t)
+        return R(VLazy("address_of_utxo_%s" % k, "Address"))
+    E.extra_intrinsics[r"Index<usize>>::index$"] = addr_index
     E.extra_intrinsics[r"as FromIterator<.*>>::from_iter|Iterator>::collect"] = lambda E_, c, a: VSeq(list(VM.deref(E_, a[0]).items), "vec") if isinstance(VM.deref(E_, a[0]), VSeq) else NotImplemented
     def mk():
         E._c13_size, E._c13_need = 0, 0
@@ -142,6 +148,10 @@ def obligations(ctx):
                 npure += 1
                 if rep != added:
                     ob2.violation("pure-ADA extension: UTxOs %s are added to the proposal, UTxOs %s are reported as taken (and leave the free list)" % (added, rep))
+                # one signature per distinct owning key: every UTxO enters the witness count under ITS OWNER's address
+                for t in o.trace:
+                    if t[0] == "add_utxo" and t[2] != "address_of_utxo_%s" % t[1]:
+                        ob2.violation("pure-ADA extension: UTxO %s is counted for the witnesses under %s instead of its owner's address" % (t[1], t[2]))
     if nsome == 0:
         ob.fail("no path returns a proposal")
     ob.finish(E)
